@@ -23,7 +23,18 @@ def key(obj):
     return hashlib.sha1(canon(obj).encode()).hexdigest()[:16]
 
 
+_DUP = [False]   # spec['dup2']: every list-like statement (allocate, depends, precedes, limits, leaves, vacation) is written twice
+
+
+def _rep(lines):
+    return lines + lines if _DUP[0] else lines
+
+
 def _limits(lim, ind):
+    return _rep(_limits1(lim, ind))
+
+
+def _limits1(lim, ind):
     if not lim:
         return []
     out = [f"{ind}limits {{"]
@@ -64,8 +75,7 @@ def _resource(r, ind=""):
     if r.get("shift"):
         out.append(f"{i2}workinghours {r['shift']}")
     out += _hours(r.get("hours") or [], i2)
-    for lv in r.get("leaves") or []:
-        out.append(i2 + (lv if isinstance(lv, str) else leave_line(lv)))
+    out += _rep([i2 + (lv if isinstance(lv, str) else leave_line(lv)) for lv in r.get("leaves") or []])
     out += _limits(r.get("limits"), i2)
     for c in r.get("children") or []:
         out += _resource(c, i2)
@@ -115,14 +125,14 @@ def _task(t, ind=""):
         a = ", ".join(t["alloc"])
         if t.get("alt"):
             a += " { alternative " + ", ".join(t["alt"]) + " }"
-        out.append(f"{i2}allocate {a}")
+        out += _rep([f"{i2}allocate {a}"])
     if t.get("deps"):
         if t.get("depsplit"):   # one 'depends' statement per predecessor
-            out += [f"{i2}depends " + _dep(d) for d in t["deps"]]
+            out += _rep([f"{i2}depends " + _dep(d) for d in t["deps"]])
         else:
-            out.append(f"{i2}depends " + ", ".join(_dep(d) for d in t["deps"]))
+            out += _rep([f"{i2}depends " + ", ".join(_dep(d) for d in t["deps"])])
     if t.get("prec"):
-        out.append(f"{i2}precedes " + ", ".join(_dep(d) for d in t["prec"]))
+        out += _rep([f"{i2}precedes " + ", ".join(_dep(d) for d in t["prec"])])
     out += _limits(t.get("limits"), i2)
     for sid, txt in t.get("scen") or []:
         out.append(f"{i2}{sid}:{txt}")
@@ -145,6 +155,14 @@ def _scen(s, ind):
 
 
 def render(spec):
+    _DUP[0] = bool(spec.get("dup2"))
+    try:
+        return _render(spec)
+    finally:
+        _DUP[0] = False
+
+
+def _render(spec):
     start = spec.get("start", "2025-01-06")
     dur = spec.get("dur", "3w")
     out = [f'project {spec.get("pid", "p")} "P" {start} +{dur} {{']
@@ -157,10 +175,8 @@ def render(spec):
         out += _scen(s, "  ")
     out += _hours(spec.get("pwh") or [], "  ")
     out.append("}")
-    for a, b in spec.get("vacations") or []:
-        out.append(f"vacation {a}" + (f" - {b}" if b else ""))
-    for typ, a, b in spec.get("gleaves") or []:
-        out.append(f'leaves {typ} "L" {a}' + (f" - {b}" if b else ""))
+    out += _rep([f"vacation {a}" + (f" - {b}" if b else "") for a, b in spec.get("vacations") or []])
+    out += _rep([f'leaves {typ} "L" {a}' + (f" - {b}" if b else "") for typ, a, b in spec.get("gleaves") or []])
     out += list(spec.get("globals") or [])
     def _shifts():
         o = []
